@@ -22,4 +22,12 @@ def jobs(seed=0):
                              defines={"NROWS": nrows, "VARIANT": variant, "MM": mm, "SLX": 0 if variant < 2 else 5},
                              cbmc_flags=["--unwind", str(max(2 * nrows, nrows * (2 * mm + 5)) + 3), "--unwinding-assertions"], functions=[fn],
                              timeout=900, bound_note="nrows=%d, m=%d, all block indices, all data" % (nrows, mm)))
+    CS = ["reim4/reim4_fftvec_conv_ref.c", "reim4/reim4_fftvec_conv_fma.c", "commons_private.c", "commons.c"]
+    for cv, nm in ((0, "ref"), (1, "fma")):
+        for mm in (4, 8, 16):
+            J.append(Job(name="reim4.cplx_roundtrip.%s.m%d" % (nm, mm), props=["C17", "C07", "C11"], shape="S4", sources=CS, harness="reim4.c",
+                         entry="h_cplx_roundtrip", no_dfcc=True, defines={"MM": mm, "CVARIANT": cv, "SLX": 0},
+                         cbmc_flags=["--unwind", str(2 * mm + 3), "--unwinding-assertions", "--object-bits", "10"],
+                         functions=["reim4_from_cplx_" + nm, "reim4_to_cplx_" + nm, "init_reim4_from_cplx_precomp", "init_reim4_to_cplx_precomp"],
+                         timeout=900, bound_note="m=%d complex numbers, all data" % mm))
     return J
